@@ -186,13 +186,24 @@ Section M.
     else if (rc_cal c =? 2)%Z then Some (gddcum - dgdd, gddcum - dgdd - gdd)
     else None.
 
-  (* the day's expansion dZr after restrictive horizons, stomatal stress, dry expansion front, early senescence
-     and failed germination *)
+  (* `_restricted_depth(Z)` applied only when Z > Zmin (what the code does to ZrOld; Zr is only restricted when > Zmin) *)
+  Definition rd_restricted (p : list (Comp F)) (zmin z : F) : option F :=
+    if z >? zmin then rd_restrict p zmin z else Some z.
+
+  (* the day's expansion dZr after restrictive horizons (today's AND yesterday's potential depth go through the
+     penetrability walk), stomatal stress, dry expansion front, early senescence and failed germination *)
   Definition rd_dzr (c : RootCrop) (p : list (Comp F)) (th : list F) (zinit zrold zr trratio cc ccns : F) (germ : bool)
     : option F :=
     let dzr0 :=
       if zr >? rc_Zmin c then
-        match rd_restrict p (rc_Zmin c) zr with None => None | Some zrout => Some (zrout - zrold) end
+        match rd_restrict p (rc_Zmin c) zr with
+        | None => None
+        | Some zr1 =>
+          match rd_restricted p (rc_Zmin c) zrold with
+          | None => None
+          | Some zo1 => Some (zr1 - zo1)
+          end
+        end
       else Some (zr - zrold) in
     match dzr0 with
     | None => None
